@@ -12,8 +12,8 @@ Histories: appends, applies, snapshot builds (capture and persist as two steps, 
 between — openraft persists a snapshot in a spawned task), installs, purges, conflicting-suffix deletions, votes,
 under openraft's calling discipline `OpsOk` (entries are appended/deleted only above the applied
 position, applied entries are the committed ones, installed snapshots were built from a prefix of
-`G` and are not installed while an own build is in flight, the log is purged only up to the stored
-snapshot).
+`G` and are not older than a snapshot the node is building at that moment, the log is purged only up
+to the stored snapshot).
 -/
 namespace Varpulis.Props.C36
 open Varpulis.RaftSM Varpulis.RaftStore
